@@ -14,6 +14,8 @@ src: strings.c
 enforce: strrev
 backend: sat
 loops: 1
+native: strhelp
+native_includes: strings.c
 */
 /* strings of 2^31 .. 2^32 characters: the int length of strrev (finding carrier) */
 /*@unit
@@ -24,6 +26,8 @@ enforce: strrev
 backend: sat
 loops: 1
 timeout: 200
+native: strhelp
+native_includes: strings.c
 */
 /*@unit
 name: chomp
@@ -32,6 +36,8 @@ src: strings.c
 enforce: spiftool_chomp
 backend: sat
 loops: 1
+native: strhelp
+native_includes: strings.c
 */
 /*@unit
 name: condense
@@ -40,6 +46,8 @@ src: strings.c
 enforce: spiftool_condense_whitespace
 backend: sat
 loops: 1
+native: strhelp
+native_includes: strings.c
 */
 /*@unit
 name: condense_empty
@@ -48,6 +56,8 @@ src: strings.c
 enforce: spiftool_condense_whitespace
 backend: sat
 loops: 1
+native: strhelp
+native_includes: strings.c
 */
 #define VERIF_OWN_STRLEN
 #define VERIF_STRLEN_GHOST vg_j
